@@ -183,8 +183,8 @@ static int KSI_HighAvailabilityService_addRequest(KSI_HighAvailabilityService *h
 				goto cleanup;
 			}
 			/* Not necessary, but copy anyway. */
-			tmp->signature = handle->signature;
-			tmp->pubRec = handle->pubRec;
+			tmp->signature = KSI_Signature_ref((KSI_Signature *)handle->signature);
+			tmp->pubRec = KSI_PublicationRecord_ref((KSI_PublicationRecord *)handle->pubRec);
 		}
 
 		res = KSI_AsyncHandle_setRequestCtx(tmp,
